@@ -42,10 +42,10 @@ class PropSpec:
         self.statics = statics or []      # extra static checks: fn() -> [Hit] / broken-tie strings
 
 
-def diff_sides(es, io, mo):
+def diff_sides(es, io, mo, ops=None):
     a = core.compared(io)
     if es.mask:
-        a, mo = es.mask(a, mo)
+        a, mo = es.mask(a, mo, ops)
     return core.first_diff(a, mo)
 
 
@@ -169,7 +169,7 @@ def run_property(spec, tier, seed, extract=None):
             if mo is not None:
                 if len(io) < len(h.ops):
                     mo = mo[:len(io)]      # the implementation process died inside this history: compare up to there
-                d = diff_sides(es, io, mo)
+                d = diff_sides(es, io, mo, h.ops)
                 if d is not None:
                     disagreements.append((es, h, d, io, mo))
 
@@ -184,7 +184,7 @@ def run_property(spec, tier, seed, extract=None):
             b = core.run_side(core.model_cmd(es.name), hh, timeout=120)[0]
             if len(a) < len(ops):
                 b = b[:len(a)]
-            return diff_sides(es, a, b) is not None
+            return diff_sides(es, a, b, ops) is not None
         small = core.shrink(es.name, h, still, budget=60 if tier == "quick" else 200)
         hh = [History(small)]
         a = core.run_side(core.impl_cmd(es.name), hh, timeout=120)[0]
@@ -193,7 +193,7 @@ def run_property(spec, tier, seed, extract=None):
         b = core.run_side(core.model_cmd(es.name), hh, timeout=120)[0]
         if len(a) < len(small):
             b = b[:len(a)]
-        dd = diff_sides(es, a, b) or d
+        dd = diff_sides(es, a, b, small) or d
         key = (es.name, small[dd[0]].split(" ")[0] if dd[0] < len(small) else "?")
         if key in seen_dis:
             continue
